@@ -61,7 +61,7 @@ Proof.
 Qed.
 
 (* ---------------------------------------------------------------- dotted identifiers *)
-Definition part_ok (p : text) : Prop :=
+Definition dpart_ok (p : text) : Prop :=
   p <> [] /\ forallb ident_char p = true /\ mem ch_dot p = false /\ num W p = NotNum.
 
 Fixpoint join_dot (l : list text) : text :=
@@ -153,7 +153,7 @@ Proof.
     + destruct p as [|c p]; [congruence|]. cbn [app hd]. destruct (P3 (c :: p) Hp1 Hp2) as [_ X]. exact X.
 Qed.
 
-Lemma all_some_parts parts : Forall part_ok parts -> all_some (map (part_symbol W) parts) = Some (map MSym parts).
+Lemma all_some_parts parts : Forall dpart_ok parts -> all_some (map (part_symbol W) parts) = Some (map MSym parts).
 Proof.
   induction 1 as [|p parts (_ & _ & _ & Hn) _ IH]; [reflexivity|]. cbn [map all_some]. unfold part_symbol at 1.
   rewrite Hn, IH. reflexivity.
@@ -169,7 +169,7 @@ Proof.
 Qed.
 
 Lemma dotted_read dots parts :
-  forallb (N.eqb ch_dot) dots = true -> parts <> [] -> Forall part_ok parts ->
+  forallb (N.eqb ch_dot) dots = true -> parts <> [] -> Forall dpart_ok parts ->
   (dots = [] -> (2 <= length parts)%nat) ->
   num W (dots ++ join_dot parts) = NotNum ->
   as_identifier W (dots ++ join_dot parts)
